@@ -252,7 +252,7 @@ NARROW = [str(x) for x in range(30, 132)]
 F("NUMPYDOC-wrapped-return-prose", ALLP,
   "numpydoc with word wrap: the parser reads only the first line of the wrapped prose of "
   "the return entry",
-  ["RetKept.base", "RetKept.stop", "RetKept.ann", "RetKept.def", "ConfigTransparent"], when={"k": "numpydoc", "wrap": True, "retwrap": True},
+  ["RetKept.base", "RetKept.stop", "RetKept.ann", "RetKept.def", "ConfigTransparent", "NeverRaises"], when={"k": "numpydoc", "wrap": True, "retwrap": True},
   ret=[True, ANY, "own", ANY, ANY, ANY])
 F("DOC-summary-reflowed-by-wrap", ALLP,
   "docstring emitters with word wrap re-fill the whole summary as one paragraph: the line breaks of a several-line summary move "
@@ -278,7 +278,8 @@ _BRK = ("word wrap breaks the line between `Defaults` and `to`: extract_default 
         "the default is no longer found and the sentence stays in the prose - ")
 F("WRAP-break-inside-announcement-numpydoc-param", ALLP, _BRK + "numpydoc parameters",
   ["DefaultKept", "ProseKept.ann", "ProseKept.stop", "ConfigTransparent"],
-  obs=["absent", "none", "int0", "strEmpty", "float0", "boolF", "diff", True, ["dann", "def"], ["dann", "def", "typ"], ["dann", "def", "ret.def"], ["dann", "def", "ret.def", "typ"]],
+  obs=["absent", "none", "int0", "strEmpty", "float0", "boolF", "diff", True, ["dann", "def"], ["dann", "def", "typ"], ["dann", "def", "ret.def"], ["dann", "def", "ret.def", "typ"],
+       ["dann", "def", "doc"], ["dann", "def", "doc", "typ"], ["dann", "def", "doc", "ret.def"], ["dann", "def", "doc", "ret.def", "typ"]],
   when={"k": "numpydoc", "wrap": True, "brk": True, "step": "parse"})
 F("WRAP-break-inside-announcement-rest-return", ALLP, _BRK + "ReST return entry",
   ["RetKept.def", "RetKept.ann", "RetKept.stop", "ConfigTransparent"],
